@@ -392,10 +392,14 @@ class Gen:
         if inherit:
             real = [i for i, d in enumerate(inherit) if d is not None]
             mutate_at = None
-            if real and (self.want_miss() or (self.expect["miss"] is None and rng.random() < self.p.get("p_slot_mut", 0.0))):
+            pre_short = bool(real) and inherit[-1] is None and self.expect["miss"] is None and \
+                rng.random() < max(0.06, 0.4 * self.p.get("p_slot_mut", 0.0))
+            if pre_short:
+                self.miss_done = True
+            if real and not pre_short and (self.want_miss() or (self.expect["miss"] is None and rng.random() < self.p.get("p_slot_mut", 0.0))):
                 mutate_at = rng.choice(real)
                 self.miss_done = True
-            drop_tail = bool(real) and mutate_at is None and self.want_miss()
+            drop_tail = bool(real) and mutate_at is None and not pre_short and self.want_miss()
             for i, d in enumerate(inherit):
                 slots.append(d)
                 if d is None:
@@ -411,6 +415,14 @@ class Gen:
                 texts.append(self.render_fn(dd, index=(i if (i != emit_pos or d["index"] is not None) else None)))
                 emit_pos = i + 1
         n = self.r(self.p["vfuncs"])
+        short_pad = False
+        if inherit and pre_short:
+            # the derived block repeats every named base function but ends inside the base's trailing padding
+            short_pad = True
+            self.expect["miss"] = "derived vftable ends inside the base's trailing padding"
+            while slots and slots[-1] is None:
+                slots.pop()
+            n = 0
         for k in range(n):
             idx = None
             pos = len(slots)
@@ -427,7 +439,7 @@ class Gen:
             slots.append(d)
             emit_pos = len(slots)
         size_attr = ""
-        if slots and (rng.random() < 0.25 or len(slots) != emit_pos):
+        if slots and not short_pad and (rng.random() < 0.25 or len(slots) != emit_pos):
             total = len(slots) + rng.choice([0, 0, 1, 3])
             if self.want_miss() and emit_pos > 1:
                 total = emit_pos - 1
